@@ -415,10 +415,15 @@ def zfrac_toks(z):
     return [("ZAID" if lib else "NUMBER", zz)] + opad_toks(p) + [num_tok(fr)] + opad_toks(tr)
 
 
+def lib_class(lib):
+    """50m is spelled like a multiply shortcut: the lexer makes the multigroup class NUM_MULTIPLY"""
+    return "NUM_MULTIPLY" if lib.endswith("m") else "NUMBER_WORD"
+
+
 def mparam_toks(m):
     if m[0] == "mpn":
         return [("KEYWORD", m[1])] + sep_toks(m[2]) + nlist_toks(m[3])
-    return [("KEYWORD", m[1])] + sep_toks(m[2]) + [("NUMBER_WORD", m[3])] + opad_toks(m[4])
+    return [("KEYWORD", m[1])] + sep_toks(m[2]) + [(lib_class(m[3]), m[3])] + opad_toks(m[4])
 
 
 def list_prog(items, f, zero, add):
@@ -575,7 +580,11 @@ SURF_COUNTS = {
 CONE_SHEET = {"k/x": 5, "k/y": 5, "k/z": 5, "kx": 3, "ky": 3, "kz": 3}
 MAT_LIB_KEYS = ["nlib", "plib", "pnlib", "elib", "hlib", "alib", "slib", "tlib", "dlib"]
 MAT_NUM_KEYS = ["gas", "estep", "hstep", "cond", "refi", "refc", "refs"]
-LIB_SUFFIX = {"nlib": "c", "plib": "p", "pnlib": "u", "elib": "e", "hlib": "h", "alib": "a", "slib": "s", "tlib": "t", "dlib": "o"}
+# data classes of the library identifiers (mval ::= D D L): continuous / discrete / multigroup neutron, photoatomic /
+# multigroup photon, photonuclear, dosimetry, electron, proton, thermal, alpha, helion, triton, deuteron
+LIB_LETTERS = {"nlib": "cdm", "plib": "pg", "pnlib": "u", "elib": "e", "hlib": "h", "alib": "a", "slib": "s", "tlib": "t",
+               "dlib": "o"}
+ALL_LIB_LETTERS = "cdmpguyehtaso"
 SDEF_KEYS = ["cel", "sur", "erg", "tme", "dir", "vec", "nrm", "pos", "rad", "ext", "axs", "x", "y", "z", "ccc", "ara",
              "wgt", "tr", "eff", "par", "dat", "loc", "bem", "bap"]
 SDEF_VECTOR = {"vec": 3, "pos": 3, "axs": 3, "dat": 3}
@@ -1232,6 +1241,8 @@ class Gen:
         neg = r.random() < 0.4
         self.hit("M:fractions-" + ("negative" if neg else "positive"))
         nparams = r.choice([0, 0, 0, 1, 1, 2, 3])
+        if ctx.get("lib_letter"):
+            nparams = max(nparams, 1)
         zs = []
         seen_lib = False
         for k in range(n):
@@ -1262,15 +1273,21 @@ class Gen:
             zs.append(["zaid", lib, zz, p1, fr, self.endp() if last else self.pad()])
         ps = []
         keys = r.sample(MAT_LIB_KEYS + MAT_NUM_KEYS, nparams)
+        if ctx.get("lib_letter") and not any(k_ in MAT_LIB_KEYS for k_ in keys):
+            keys[0] = r.choice(MAT_LIB_KEYS)
         for k, key in enumerate(keys):
             last = k == nparams - 1
             self.emit([("KEYWORD", key)])
             sep = self.sep(eq_only=True)
             self.hit("mkey:" + key.upper())
             if key in MAT_LIB_KEYS:
-                lib = digits(r, 2) + LIB_SUFFIX[key]
-                self.emit([("NUMBER_WORD", lib)])
+                letter = r.choice(LIB_LETTERS[key]) if r.random() < 0.7 else r.choice(ALL_LIB_LETTERS)
+                if ctx.get("lib_letter"):
+                    letter = ctx["lib_letter"]
+                lib = digits(r, 2) + letter
+                self.emit([(lib_class(lib), lib)])
                 self.hit("mval:DDL")
+                self.hit("mval:DDL-class-" + letter)
                 ps.append(["mpl", key, sep, lib, self.endp() if last else self.pad()])
             else:
                 v = self.real("REAL")
@@ -2020,6 +2037,7 @@ def simplify_pads(sh):
 # every alternative of DESIGN.md 5.2 / 5.3 that the generator counts (Gen.hit); the evidence lists the ones a run
 # did not exercise
 ALTERNATIVES = [
+    'mval:DDL-class-c', 'mval:DDL-class-d', 'mval:DDL-class-m', 'mval:DDL-class-p', 'mval:DDL-class-g', 'mval:DDL-class-u', 'mval:DDL-class-y', 'mval:DDL-class-e', 'mval:DDL-class-h', 'mval:DDL-class-t', 'mval:DDL-class-a', 'mval:DDL-class-s', 'mval:DDL-class-o',
     'FC/SC:continuation-line',
     'NL:I-ends-at-zero',
     'DS:no-option', 'DS:option-A', 'DS:option-C', 'DS:option-D', 'DS:option-H', 'DS:option-L', 'DS:option-S',
